@@ -9,7 +9,7 @@ from .. import gen, impl, oracle, progs, ser, stream
 
 ID = "C14"
 LEVEL = "proof"
-PROPS_MODULE = "SymmModel.Props.C14All2"
+PROPS_MODULE = "SymmModel.Props.C14All3"
 THEOREMS = [
     "SymmModel.C14.op_safe",
     "SymmModel.C14.op_step",
@@ -88,10 +88,26 @@ THEOREMS = [
     "SymmModel.Heap.binSem_value",
     "SymmModel.Heap.bodyF_value",
     "SymmModel.Heap.keysOf_psSem",
-    "SymmModel.Heap.psActs_ph"
+    "SymmModel.Heap.psActs_ph",
+    "SymmModel.C14.spec_frame_denotation",
+    "SymmModel.C14.op_frame_denotation",
+    "SymmModel.C14.op2_frame_denotation",
+    "SymmModel.C14.gprog_frame_denotation",
+    "SymmModel.C14.binaryF_value'",
+    "SymmModel.C14.binaryF_self_value'",
+    "SymmModel.C14.phase_sync_value",
+    "SymmModel.C14.multiply_diagonal_value",
+    "SymmModel.Heap.prog_bufext",
+    "SymmModel.Heap.psSem_eq_syncSD",
+    "SymmModel.Heap.syncSD_enc",
+    "SymmModel.Heap.psSem_rep",
+    "SymmModel.Heap.binaryBlockwise_enc",
+    "SymmModel.Heap.multiplyDiagonal_abs",
+    "SymmModel.Heap.mdSem_enc",
+    "SymmModel.Heap.multiplyDiagonal_pureV"
 ]
-LEAN_FILES = ["SymmModel.Model.Heap", "SymmModel.Proofs.HeapLemmas", "SymmModel.Proofs.HeapRefine", "SymmModel.Props.C14", "SymmModel.Driver.HeapH", "SymmModel.Model.Heap2", "SymmModel.Proofs.Heap2Binary", "SymmModel.Proofs.Heap2Inplace", "SymmModel.Proofs.Heap2Lemmas", "SymmModel.Props.C14b", "SymmModel.Props.C14All", "SymmModel.Driver.Heap2H", "SymmModel.Proofs.Heap3Sem", "SymmModel.Proofs.Heap3Prov", "SymmModel.Proofs.Heap3Value", "SymmModel.Props.C14c", "SymmModel.Props.C14All2"]
-PLANNED = ["psSem (heap-side phase_sync on block values) = the value model's Arr.phaseSync, to finish the fermionic end-to-end link to binaryBlockwise (abelian link complete)"]
+LEAN_FILES = ["SymmModel.Model.Heap", "SymmModel.Proofs.HeapLemmas", "SymmModel.Proofs.HeapRefine", "SymmModel.Props.C14", "SymmModel.Driver.HeapH", "SymmModel.Model.Heap2", "SymmModel.Proofs.Heap2Binary", "SymmModel.Proofs.Heap2Inplace", "SymmModel.Proofs.Heap2Lemmas", "SymmModel.Props.C14b", "SymmModel.Props.C14All", "SymmModel.Driver.Heap2H", "SymmModel.Proofs.Heap3Sem", "SymmModel.Proofs.Heap3Prov", "SymmModel.Proofs.Heap3Value", "SymmModel.Props.C14c", "SymmModel.Props.C14All2", "SymmModel.Proofs.Heap4Frame", "SymmModel.Proofs.Heap4Sync", "SymmModel.Proofs.Heap4MulDiag", "SymmModel.Props.C14d", "SymmModel.Props.C14All3"]
+PLANNED = []
 RULE = ("random programs (length <= 4) over abelian and fermionic arrays incl. decompositions; deep snapshots "
         "(block bytes, dict orders, index tables, charge, pending signs, labels) of every live value before and after "
         "each step; afterwards every result is mutated through all in-place methods and dict writes and the operands "
